@@ -170,25 +170,21 @@ import (
 func Abbreviate(s string, n int) string {
 	const spaces = " \n\r\t\f" // https://infra.spec.whatwg.org/#ascii-whitespace
 	s = strings.TrimRight(s, spaces)
-	if len(s) <= n {
+	if len(s) <= n || utf8.RuneCountInString(s) <= n {
 		return s
 	}
 	if n < 3 {
 		return ""
 	}
+	// n2 is the index of the rune at position n-2.
 	p := 0
 	n2 := 0
 	for i := range s {
-		switch p {
-		case n - 2:
+		if p == n-2 {
 			n2 = i
-		case n:
 			break
 		}
 		p++
-	}
-	if p < n {
-		return s
 	}
 	if p = strings.LastIndexAny(s[:n2], spaces); p > 0 {
 		s = strings.TrimRight(s[:p], spaces)
